@@ -8,6 +8,7 @@ pointer).  `SR.Transformers()` — re-run on every call — is `Core.init`, acti
 of the record that the projection constructors read and write (Lat0, Long0, X0, Y0, K0, A, Es, E, …);
 the closures it returns are `Core.inv`/`Core.fwd`, evaluated on the initialised record;
 `datumTransform` is `Core.dt` (it saves and restores the only datum fields it writes, see notes).
+The closure is `step`; its body `transform3` is `stepNoHop`/`body`.
 These are parameters: the theorems hold for every choice satisfying `CoreOK` (re-running a constructor
 on an already initialised record changes nothing), and the correspondence run instantiates them with
 tables filled from the real code and checks `CoreOK`'s content on the real objects (state dumps).
@@ -28,6 +29,7 @@ class FOps (F : Type) where
   isNaN : F → Bool
   deg2rad : F    -- 0.01745329251994329577
   r2d : F        -- 57.29577951308232088
+  zero : F       -- 0.
 
 /-- What the closure reads of an `*SR` outside the projection functions, plus the rest (`p`). -/
 structure SR (F P : Type) where
@@ -45,8 +47,8 @@ structure Core (F P Err : Type) where
   /-- the inverse / forward closure, evaluated on the initialised record -/
   inv : P → F → F → Except Err (F × F)
   fwd : P → F → F → Except Err (F × F)
-  /-- `datumTransform(heap[i].datum, heap[j].datum, x, y, 0)`, first two results -/
-  dt : Nat → Nat → F → F → Except Err (F × F)
+  /-- `datumTransform(heap[i].datum, heap[j].datum, x, y, z)` -/
+  dt : Nat → Nat → F → F → F → Except Err (F × F × F)
   /-- the error of `adjust_axis` for an unknown axis letter -/
   axisErr : Err
 
@@ -56,6 +58,13 @@ def CoreOK {F P Err : Type} (c : Core F P Err) : Prop :=
 
 inductive Res (F Err : Type) where
   | ok (x y : F)
+  | err (e : Err)
+  | panic (f : Fault)
+deriving Repr, DecidableEq
+
+/-- result of `transform3` (the point with its ellipsoidal height) -/
+inductive Res3 (F Err : Type) where
+  | ok (x y z : F)
   | err (e : Err)
   | panic (f : Fault)
 deriving Repr, DecidableEq
@@ -123,7 +132,7 @@ def axisStepSnapshot (axisErr : Err) (axis : List Char) (denorm : Bool) (point :
 
 def enu : List Char := ['e', 'n', 'u']
 
-def failToRes : Fail Err → Res F Err
+def failToRes : Fail Err → Res3 F Err
   | .err e => .err e
   | .panic f => .panic f
 
@@ -138,8 +147,8 @@ def axisPart (axisErr : Err) (axis : List Char) (denorm : Bool) (x y : F) : Exce
       | some a, some b => .ok (a, b)
       | _, _ => .error (.panic .index)
 
-/-- The closure body after the WGS84 block, given the two (initialised) records. -/
-def body (c : Core F P Err) (s d : Nat) (S D : SR F P) (x y : F) : Res F Err :=
+/-- The body of `transform3(source, dest, x, y, z)` given the two (initialised) records. -/
+def body (c : Core F P Err) (s d : Nat) (S D : SR F P) (x y z : F) : Res3 F Err :=
   match axisPart c.axisErr S.axis false x y with
   | .error e => failToRes e
   | .ok (x, y) =>
@@ -151,9 +160,9 @@ def body (c : Core F P Err) (s d : Nat) (S D : SR F P) (x y : F) : Res F Err :=
     | .error e => .err e
     | .ok (x, y) =>
       let x := if isNaN S.fromGreenwich then x else add x S.fromGreenwich
-      match c.dt s d x y with
+      match c.dt s d x y z with
       | .error e => .err e
-      | .ok (x, y) =>
+      | .ok (x, y, z) =>
         let x := if isNaN D.fromGreenwich then x else sub x D.fromGreenwich
         let r : Except Err (F × F) :=
           if D.longlat then .ok (mul x r2d, mul y r2d)
@@ -166,10 +175,10 @@ def body (c : Core F P Err) (s d : Nat) (S D : SR F P) (x y : F) : Res F Err :=
         | .ok (x, y) =>
           match axisPart c.axisErr D.axis true x y with
           | .error e => failToRes e
-          | .ok (x, y) => .ok x y
+          | .ok (x, y) => .ok x y z
 
-/-- One call of the closure for a pair that needs no hop: both constructors are re-run first. -/
-def stepNoHop (c : Core F P Err) (h : Heap F P) (s d : Nat) (x y : F) : Heap F P × Res F Err :=
+/-- `transform3(source, dest, x, y, z)`: both constructors are re-run first. -/
+def stepNoHop (c : Core F P Err) (h : Heap F P) (s d : Nat) (x y z : F) : Heap F P × Res3 F Err :=
   let r1 := initAt c h s
   match r1.2 with
   | some e => (r1.1, .err e)
@@ -177,7 +186,12 @@ def stepNoHop (c : Core F P Err) (h : Heap F P) (s d : Nat) (x y : F) : Heap F P
     let r2 := initAt c r1.1 d
     match r2.2 with
     | some e => (r2.1, .err e)
-    | none => (r2.1, body c s d (r2.1 s) (r2.1 d) x y)
+    | none => (r2.1, body c s d (r2.1 s) (r2.1 d) x y z)
+
+def dropZ : Res3 F Err → Res F Err
+  | .ok x y _ => .ok x y
+  | .err e => .err e
+  | .panic f => .panic f
 
 /-- `checkNotWGS(a, b)` -/
 def notWGS (a b : SR F P) : Bool := (a.dtype = 1 ∨ a.dtype = 2) ∧ ¬ b.wgsCode
@@ -190,38 +204,37 @@ structure Tr where
   dst : Nat
 deriving Repr, DecidableEq
 
-/-- One call `t(x, y)` of the closure (fixed code, 788adbd: the hop re-points a per-call copy of
-`source`, so the captured pair is returned unchanged).  `wgs` is the heap cell of the registry's
-WGS84 object. -/
+/-- One call `t(x, y)` of the closure (fixed code: 788adbd, the hop re-points a per-call copy of
+`source`, so the captured pair is returned unchanged; 9f83d68, the height found by the first leg is
+passed to the second).  `wgs` is the heap cell of the registry's WGS84 object. -/
 def step (c : Core F P Err) (wgs : Nat) (h : Heap F P) (tr : Tr) (x y : F) : Heap F P × Tr × Res F Err :=
   if needsHop h tr.src tr.dst then
-    -- t := source.NewTransform(wgs84); t(x, y) runs the same closure for (source, wgs84)
-    if needsHop h tr.src wgs then (h, tr, .panic .recursion)
-    else
-      let r1 := stepNoHop c h tr.src wgs x y
-      match r1.2 with
-      | .ok a b =>
-        let r2 := stepNoHop c r1.1 wgs tr.dst a b   -- source = wgs84 (local)
-        (r2.1, tr, r2.2)
-      | other => (r1.1, tr, other)
+    let r1 := stepNoHop c h tr.src wgs x y zero        -- x, y, z, err = transform3(source, wgs84, x, y, z)
+    match r1.2 with
+    | .ok a b z =>
+      let r2 := stepNoHop c r1.1 wgs tr.dst a b z      -- source = wgs84 (local)
+      (r2.1, tr, dropZ r2.2)
+    | other => (r1.1, tr, dropZ other)
   else
-    let r := stepNoHop c h tr.src tr.dst x y
-    (r.1, tr, r.2)
+    let r := stepNoHop c h tr.src tr.dst x y zero
+    (r.1, tr, dropZ r.2)
 
-/-- The snapshot's closure (commit 8354466): `source = wgs84` assigns to the captured variable. -/
+/-- The snapshot's closure (commit 8354466): the first leg is a nested transformer
+`source.NewTransform(wgs84)` (which would recurse if that pair needed a hop itself), `source = wgs84`
+assigns to the captured variable, and the second leg starts from height 0. -/
 def stepSnapshot (c : Core F P Err) (wgs : Nat) (h : Heap F P) (tr : Tr) (x y : F) : Heap F P × Tr × Res F Err :=
   if needsHop h tr.src tr.dst then
     if needsHop h tr.src wgs then (h, tr, .panic .recursion)
     else
-      let r1 := stepNoHop c h tr.src wgs x y
+      let r1 := stepNoHop c h tr.src wgs x y zero
       match r1.2 with
-      | .ok a b =>
-        let r2 := stepNoHop c r1.1 wgs tr.dst a b
-        (r2.1, { tr with src := wgs }, r2.2)
-      | other => (r1.1, tr, other)
+      | .ok a b _ =>
+        let r2 := stepNoHop c r1.1 wgs tr.dst a b zero
+        (r2.1, { tr with src := wgs }, dropZ r2.2)
+      | other => (r1.1, tr, dropZ other)
   else
-    let r := stepNoHop c h tr.src tr.dst x y
-    (r.1, tr, r.2)
+    let r := stepNoHop c h tr.src tr.dst x y zero
+    (r.1, tr, dropZ r.2)
 
 /-- State of a pool of transformers sharing SRs. -/
 structure TState (F P : Type) where
